@@ -314,6 +314,12 @@ func main() {
 				}
 				// the same bytes under a length octet that lies (short-form headers): decoders must go
 				// by the datagram, and whoever trusts the octet shows
+				// ... and in the long form (01 hi lo type body) with true and lying lengths
+				if k < 28*20 && len(b) >= 2 && b[0] != 1 {
+					for _, l := range []int{1, 2, 3, len(b) + 2, 300} {
+						emitD(append([]byte{1, byte(l >> 8), byte(l)}, b[1:]...))
+					}
+				}
 				if k < 28*40 && len(b) >= 2 && b[0] != 1 {
 					for _, l := range []int{2, 3, 4, len(b) - 1, len(b) + 1} {
 						if l >= 2 && l <= 255 && l != len(b) {
